@@ -19,7 +19,10 @@ import os
 
 import common
 import c01_common as cc
+import c02_cov
+import c02_depth
 import c02_linalg
+import c02_ops2
 import npc_gen
 from c01 import replay, coq_stream
 
@@ -55,7 +58,7 @@ def coq_stream2(ctx, results, programs, max_cases, config, opt0):
     for b in bad[:5]:
         pi, opn = origin[b]
         ctx.fail('correspondence', 'Coq model (check_case_c02x) and implementation disagree on operation %s' % opn,
-                 {'stream': 'programs', 'program': programs[pi], 'config': config, 'optimize0': opt0, 'coq_case': cases[b][:3000]})
+                 {'stream': 'c02x', 'program': programs[pi], 'config': config, 'optimize0': opt0, 'coq_case': cases[b][:3000]})
     for _ in cases:
         ctx.count('model-vs-impl', len(ctx._distinct), nontrivial=False)
     return len(cases), per_op
@@ -90,19 +93,48 @@ def coq_stream3(ctx, results, cases, max_cases, config, opt0):
     return len(lits)
 
 
-XSTREAM = {'flatop': 'flat-operator', 'flatpipe': 'flat-operator-pipe', 'leglookup': 'leg-lookups', 'linalg': 'linalg-functions'}
+XSTREAM = {'flatop': 'flat-operator', 'flatpipe': 'flat-operator-pipe', 'leglookup': 'leg-lookups', 'linalg': 'linalg-functions',
+           'apiopts': 'api-options', 'dipolar': 'dipolar-charges', 'legops': 'leg-histories'}
 
 
-def linalg_streams(ctx, rng, seen, all_hist):
+class Cov:
+    """line / option recording of the runner processes (pure-Python configuration), merged over all streams"""
+
+    def __init__(self):
+        self.lines = {}
+        self.params = set()
+
+    def add(self, results):
+        for r in results:
+            for s_, ls in (r.get('cov') or {}).items():
+                self.lines.setdefault(s_, set()).update(ls)
+            for t in r.get('params') or ():
+                self.params.add(tuple(t))
+
+
+def wrap(prog, inner_kind, cov):
+    """a tensor / leg program of npc_gen.py as a case of kind 'c02x' (harness/c02_linalg.run_wrap)"""
+    w = {'kind2': 'wrap', 'inner_kind': inner_kind, 'inner': prog, 'seed': prog.get('seed'), 'mods': prog.get('mods')}
+    if cov:
+        w['cov'] = True
+    return w
+
+
+def linalg_streams(ctx, rng, seen, all_hist, cov):
     """streams of harness/c02_linalg.py + coverage table of the public API of tenpy.linalg (by reflection, in the implementation's interpreter)"""
     nx = {'leglookup': ctx.pick(400, 4000), 'flatop': ctx.pick(300, 2800), 'flatpipe': ctx.pick(120, 1200), 'linalg': ctx.pick(200, 2000)}
     if not ctx.proof.ok:
         nx = {k: 3 * v for k, v in nx.items()}
+    nx2 = {'apiopts': ctx.pick(72, 640), 'dipolar': ctx.pick(80, 600), 'legops': ctx.pick(400, 3000)}
+    if not ctx.proof.ok:
+        nx2 = {k: 3 * v for k, v in nx2.items()}
     cases = [c['xcase'] for c in common.corpus_cases(PROP) if 'xcase' in c]
     cases += [c02_linalg.gen_case(rng, k) for k, n in nx.items() for _ in range(n)]
+    cases += c02_ops2.extra_cases(rng, nx2)
     api_calls = {}
-    for config, opt0, sel in (('py', True, cases), ('cy', False, cases[::4])):
+    for config, opt0, sel in (('py', True, [dict(c, cov=True) for c in cases]), ('cy', False, cases[::4])):
         results, infos, crashes = cc.run_programs('c02x', sel, config, opt0)
+        cov.add(results)
         for kind2, stream in XSTREAM.items():
             idx = [i for i, c in enumerate(sel) if c['kind2'] == kind2]
             hist, notes = cc.collect(ctx, PROP, '%s-%s' % (stream, config), [sel[i] for i in idx], [results[i] for i in idx],
@@ -153,30 +185,41 @@ def main(ctx):
         nprog *= 3
     corpus = [c['program'] for c in common.corpus_cases(PROP) if 'program' in c]
     programs = corpus + [npc_gen.make_program(rng, ctx.tier, record_coq=2) for _ in range(nprog)]
-    for p in programs[len(corpus):]:
+    for i, p in enumerate(programs[len(corpus):]):
         # histories: longer than for C01 (the false claim only hurts a few steps later)
         p['nsteps'] = p['n_init'] + rng.randint(2, ctx.pick(10, 25))
+        # single precision tensors in the histories; leg classes of the pool forced by stratification (harness/c02_depth.DepthRunner, c02_ops2.stratify_pool)
+        p['single_p'] = 0.2
+        c02_ops2.stratify_pool(p, i, rng)
     seen, all_hist, coq_done = {}, {}, {}
+    cov = Cov()
     for config, opt0 in (('py', True), ('cy', False)):
-        results, infos, crashes = cc.run_programs('programs', programs, config, opt0)
+        # through kind 'c02x' of the shared runner: harness/c02_depth.DepthRunner = the program runner of npc_gen.py + input classes of the
+        # operands + the additional invariants (+ line / option recording in the pure-Python configuration)
+        wrapped = [wrap(p, 'programs', config == 'py') for p in programs]
+        results, infos, crashes = cc.run_programs('c02x', wrapped, config, opt0)
+        cov.add(results)
         if config == 'cy' and not all(i.get('have_cython') for i in infos if i):
             ctx.fail('correspondence', 'the rebuilt extension was not loaded in the cy configuration', None)
-        hist, notes = cc.collect(ctx, PROP, 'histories-' + config, programs, results, crashes, config, opt0, seen_keys=seen)
+        hist, notes = cc.collect(ctx, PROP, 'histories-' + config, wrapped, results, crashes, config, opt0, kind='c02x', seen_keys=seen)
         all_hist[config] = {k: v for k, v in sorted(hist.items())}
         if notes:
             ctx.notes.append('%s: observations outside C02 (not counted): %s' % (config, dict(sorted(notes.items())[:12])))
-        n, per_op = coq_stream(ctx, PROP, results, programs, 'check_case_c02', ctx.pick(700, 4000))
-        n2, per_op2 = coq_stream2(ctx, results, programs, ctx.pick(400, 2500), config, opt0)
+        n, per_op = coq_stream(ctx, PROP, results, wrapped, 'check_case_c02', ctx.pick(700, 4000))
+        n2, per_op2 = coq_stream2(ctx, results, wrapped, ctx.pick(400, 2500), config, opt0)
         per_op.update(per_op2)
         coq_done[config] = {'cases': n + n2, 'per_op': per_op}
     legprogs = [npc_gen.make_leg_program(rng) for _ in range(nleg)]
-    results, infos, crashes = cc.run_programs('legs', legprogs, 'py', True)
-    hist, notes = cc.collect(ctx, PROP, 'legs', legprogs, results, crashes, 'py', True, kind='legs', seen_keys=seen)
+    wrapped = [wrap(p, 'legs', True) for p in legprogs]
+    results, infos, crashes = cc.run_programs('c02x', wrapped, 'py', True)
+    cov.add(results)
+    hist, notes = cc.collect(ctx, PROP, 'legs', wrapped, results, crashes, 'py', True, kind='c02x', seen_keys=seen)
     all_hist['legs'] = hist
     import time
     t0 = time.time()
-    linalg_streams(ctx, rng, seen, all_hist)
+    linalg_streams(ctx, rng, seen, all_hist, cov)
     ctx.cov['c02x_wall_s'] = round(time.time() - t0, 1)
+    c02_cov.evaluate(ctx, common.REPO, cov.lines, cov.params, all_hist)
     ctx.cov['traces_validated_against_impl'] = sum(v['cases'] for v in coq_done.values()) + ctx.cov.get('lookup_model_vs_impl_cases', 0)
     ctx.cov['model_vs_impl'] = coq_done
     ctx.cov['input_distribution'] = all_hist
